@@ -261,8 +261,10 @@ Definition niter (it : nat) (s : nst) : nstepres :=
       let s' := mknst (s_x1 s) x2 nx fe2 lo hi flo fhi b in
       let ad := Rabs (nx - x2) in
       let sc := Rmax (Rabs x2) (n_atol cfg) in
+      (* only a regular step may decide convergence (not an Aitken extrapolation step) *)
       if (if Rlt_dec ad (n_atol cfg) then true else false)
          && (if Rlt_dec (ad / sc) (n_rtol cfg) then true else false)
+         && negb (n_aitken cfg && Nat.eqb (it mod 3) 0)
       then NDone s' else NCont s'
   end.
 
